@@ -9,7 +9,7 @@ oracle:  independent dict-based offset->byte reference, evaluated on the
 """
 import itertools
 
-from harness import core, lean, rng, tree
+from harness import core, lean, rng, send_explore, tree
 
 
 # ----------------------------------------------------------------- generators
@@ -179,6 +179,13 @@ class SendDriver:
         out = self.impl.step(line)
         self.lines.append(line)
         self.outs.append(out)
+        # independent per-state oracle (conservation / re-offer / completion,
+        # evaluated on a deep copy of the real sender after EVERY op)
+        if not hasattr(self, "ghost"):
+            self.ghost = send_explore.SendGhost()
+        p = self.ghost.apply(line, out) or self.ghost.check(self.impl.send)
+        if p:
+            self.fail(f"{p} (after {line!r})")
         return out
 
     def fail(self, msg):
@@ -202,6 +209,8 @@ class SendDriver:
         r = self.r
         self.do("send.new 1")
         for _ in range(max_ops):
+            if self.problem:
+                return self.problem      # shortest failing history: stop at the first problem
             x = r.random()
             if x < 0.25 and not self.fin_written and not self.reset:
                 n = r.choice([0, 1, 2, 3, 5, 8, 40])
@@ -401,7 +410,25 @@ def main(tier):
     cases = list(rs_cases(r, 5, 2 if not thorough else 3, 300 if not thorough else 5000))
     run_cases(ctx, "rangeset", cases, StreamImpl)
     ctx.sample({"rangeset": cases[7]})
-    # 5. sender: adaptive well-formed histories + oracle, then replay on model
+    # 5a. sender, exhaustive small scope on the REAL object (deep copies at every
+    #     branch), oracle at EVERY state, then the explored histories on the model
+    scopes = [(12, 3, 2)] if not thorough else [(40, 3, 2), (13, 4, 3), (9, 5, 3)]
+    for depth, nbytes, nwrites in scopes:
+        problems, cases, outs, st = send_explore.explore(StreamImpl, depth, nbytes, nwrites)
+        for what, ops, out in problems:
+            ctx.witness(what, {"ops": ops, "impl_output": out}, {"oracle": "send-exhaustive", "what": what.split(":")[0]})
+        for c in cases:
+            ctx.count(tuple(c), any(l.startswith("send.delivery 0") for l in c))
+        ctx.cov.setdefault("send_exhaustive", []).append(
+            {"max_ops": depth, "max_bytes": nbytes, "max_writes": nwrites, **st, "histories": len(cases)})
+        model_lines = lean.run_driver([l for c in cases for l in c])
+        for m in core.diff_streams(ctx, "send-exhaustive", cases, [o for c in outs for o in c], model_lines)[:3]:
+            if m[0] >= 0:
+                ctx.disagreement("send-exhaustive", cases[m[0]][: m[1] + 1], m[3], m[2], m[1])
+        ctx.cov["traces_validated_against_impl"] += len(cases)
+        if cases:
+            ctx.sample({"send-exhaustive": cases[len(cases) // 2]})
+    # 5b. sender: adaptive well-formed histories + oracle, then replay on model
     cases = []
     impl_lines = []
     for i in range(600 if not thorough else 10000):
@@ -422,8 +449,12 @@ def main(tier):
     run_cases(ctx, "send-malformed", cases, StreamImpl)
     ctx.cov["rule"] = (
         "receiver: every (offset,len,fin)/reset sequence over streams of length<=3 (k ops) and <=4, plus random "
-        "overlap-biased sequences incl. inconsistent overlaps; sender: adaptive well-formed histories "
-        "(write/get_frame/ack/loss/reset) and arbitrary malformed histories; RangeSet: all add/subtract/shift "
+        "overlap-biased sequences incl. inconsistent overlaps; sender: EVERY well-formed history of <=12 ops "
+        "(quick; to closure and wider in thorough) over streams of <=3 bytes written in <=2 writes (incl. a separate "
+        "empty FIN write), get_frame with max_size in {1,2,inf} x max_offset in {none,1,2}, every ack/loss of every "
+        "frame in flight, reset/RESET delivery at any point, states merged when sender attributes and history "
+        "coincide, with the conservation / re-offer / completion oracle evaluated at every state on a deep copy; "
+        "plus adaptive random well-formed histories (same oracle at every state) and arbitrary malformed histories; RangeSet: all add/subtract/shift "
         "sequences over a universe of 5. Non-trivial = a receive trace with a withheld frame later delivered "
         "(gap fill / reordering) or a send trace with loss after emission or ack of a middle range; distinct by op-sequence hash."
     )
@@ -440,6 +471,10 @@ def main(tier):
             if p:
                 ctx.witness(p, {"ops": case, "impl_output": out}, {"oracle": "recv"})
                 return
+        problems, _, _, _ = send_explore.explore(StreamImpl, 10, 4, 3)
+        for what, ops, out in problems[:1]:
+            ctx.witness(what, {"ops": ops, "impl_output": out}, {"oracle": "send-exhaustive", "what": what.split(":")[0]})
+            return
         for _ in range(8000):
             sd = SendDriver(StreamImpl(), rr)
             p = sd.run(rr.choice([8, 20, 60]))
@@ -466,7 +501,8 @@ def replay(path):
     if ops[0].startswith("recv"):
         p = oracle_recv(None, ops, out)
     else:
-        p = None if out == d["replay"]["impl_output"] else "output differs from the recorded failing run"
-        p = p or d["what"]
+        # send half: re-evaluate the history oracle at every state of the recorded op list
+        # (this subsumes the end-of-run checks of the random driver)
+        p, out = send_explore.check_trace(StreamImpl, ops)
     print("still failing: " + p if p else "no longer failing")
     return 1 if p else 0
